@@ -5,6 +5,8 @@ Property theorems only (helper lemmas live in Lemmas/Debugger.lean).
 import WzVerif.Model.Debugger
 import WzVerif.Lemmas.Debugger
 import WzVerif.Gen.Debugger
+import WzVerif.Gen.DebuggerWide
+import WzVerif.Lemmas.DebuggerWide
 namespace Wz.Props.C20
 open Wz Wz.Dbg Wz.Gen.Debugger
 
@@ -29,7 +31,13 @@ theorem rows_length : rows.length = nRows := table_complete.1
 `DebuggedApplication.__call__` at every point of the product. -/
 theorem table_matches_model :
     ∀ idx j, idx < nRows → j < rowLen → outcomeAt idx j = modelOutcome (pointAt idx j) := by
-  have key : checkTable (fun idx j o => o == modelOutcome (pointAt idx j)) = true := by decide +kernel
+  have hA : checkRows (fun idx j o => o == modelOutcome (pointAt idx j)) nRows (rows.take 168) nRows = true := by
+    decide +kernel
+  have hB : checkRows (fun idx j o => o == modelOutcome (pointAt idx j)) nRows ((rows.drop 168).take (336 - 168))
+      (nRows - 168) = true := by decide +kernel
+  have hC : checkRows (fun idx j o => o == modelOutcome (pointAt idx j)) nRows (rows.drop 336) (nRows - 336) = true := by
+    decide +kernel
+  have key := checkTable_thirds _ 168 336 (by decide) (by decide) rows_length hA hB hC
   intro idx j hi hj
   simpa using checkTable_get key rows_length idx j hi hj
 
@@ -556,5 +564,230 @@ example : (runSession {} [.right, .eval, .change, .eval, .reuse, .right, .eval])
 theorem session_extends_history (hist : List Attempt) :
     (runSession {} (hist.map Attempt.toAct)).1 = (runHistory failPinAuth 0 hist).1.map Obs.pin :=
   (runSession_history hist {}).1
+
+/-! ### the PIN cookie on its raw value, for every clock -/
+
+/-- **A cookie older than PIN_TIME never authorises — for every clock value**, every timestamp
+parser, every cookie text and every PIN hash: with the PIN switched on, `check_pin_trust` answers
+`True` only for a value `ts_text|hash` whose hash is the current PIN's and whose timestamp satisfies
+`now - PIN_TIME < ts`. So once `now ≥ ts + PIN_TIME` the answer is never `True` again, however the
+cookie is spelled. (`now` is `floor(time.time())`: for an integer `ts` the float comparison of the
+code is this integer comparison.) -/
+theorem cookie_expiry_every_clock (intOf : IntOf) (pinTime : Int) (hp : List Char)
+    (cookie : Option (List Char)) (now : Int)
+    (h : checkPinTrustRaw intOf pinTime (some hp) cookie now = .yes) :
+    ∃ val ts, cookie = some val ∧ val ≠ [] ∧ '|' ∈ val ∧ intOf (splitBar val).1 = some ts ∧
+      (splitBar val).2 = hp ∧ now - pinTime < ts := by
+  unfold checkPinTrustRaw at h
+  cases cookie with
+  | none => simp at h
+  | some val =>
+    simp only at h
+    split at h
+    · cases h
+    · rename_i h1
+      simp only [Bool.or_eq_true, Bool.not_eq_true', not_or, Bool.not_eq_true, Bool.not_eq_false] at h1
+      cases hi : intOf (splitBar val).1 with
+      | none => simp [hi] at h
+      | some ts =>
+        simp only [hi] at h
+        split at h
+        · cases h
+        · rename_i h2
+          split at h
+          · rename_i h3
+            refine ⟨val, ts, rfl, ?_, ?_, hi, by simpa using h2, h3⟩
+            · intro he; simp [he] at h1
+            · simpa using h1.2
+          · cases h
+
+/-- ... in particular: fix any cookie and any clock `now` at which it is old (`now - PIN_TIME ≥ ts`
+for the timestamp it carries): it does not authorise, and it does not at any later clock either. -/
+theorem cookie_expired_stays_expired (intOf : IntOf) (pinTime : Int) (hp val : List Char) (ts now later : Int)
+    (hts : intOf (splitBar val).1 = some ts) (hold : now - pinTime ≥ ts) (hl : now ≤ later) :
+    checkPinTrustRaw intOf pinTime (some hp) (some val) later ≠ .yes := by
+  intro h
+  obtain ⟨v, t, hv, _, _, ht, _, hlt⟩ := cookie_expiry_every_clock intOf pinTime hp (some val) later h
+  simp only [Option.some.injEq] at hv
+  subst hv
+  rw [hts] at ht
+  simp only [Option.some.injEq] at ht
+  omega
+
+/-- **The cookie `pin_auth` issues is good for exactly PIN_TIME seconds**: issued at `t0` for the
+PIN whose hash is `hp` (the hash text contains no `|`… it is 12 hex digits; the rendered timestamp
+none either), it authorises at clock `now` iff `now < t0 + PIN_TIME` — as long as the PIN is unchanged. -/
+theorem issued_cookie_window (intOf : IntOf) (render : Int → List Char) (pinTime t0 now : Int) (hp : List Char)
+    (hr : '|' ∉ render t0) (hparse : intOf (render t0) = some t0) :
+    checkPinTrustRaw intOf pinTime (some hp) (some (issuedCookie render t0 hp)) now = .yes ↔
+      now < t0 + pinTime := by
+  have hs : splitBar (issuedCookie render t0 hp) = (render t0, hp) := by
+    unfold splitBar issuedCookie
+    have h1 : (render t0 ++ '|' :: hp).takeWhile (· != '|') = render t0 := by
+      rw [List.takeWhile_append_of_pos (by intro c hc; have : c ≠ '|' := fun e => hr (e ▸ hc); simpa using this)]
+      simp
+    have h2 : (render t0 ++ '|' :: hp).dropWhile (· != '|') = '|' :: hp := by
+      rw [List.dropWhile_append_of_pos (by intro c hc; have : c ≠ '|' := fun e => hr (e ▸ hc); simpa using this)]
+      simp
+    rw [h1, h2]; rfl
+  have hne : ((issuedCookie render t0 hp).isEmpty || !(issuedCookie render t0 hp).contains '|') = false := by
+    simp [issuedCookie]
+  unfold checkPinTrustRaw
+  simp only [hne, Bool.false_eq_true, if_false, hs, hparse, bne_self_eq_false]
+  by_cases h : now - pinTime < t0
+  · simp only [h, if_true, true_iff]; omega
+  · simp only [h, if_false, reduceCtorEq, false_iff]; omega
+
+example : checkPinTrustRaw decimalInt 604800 (some ['R']) (some "1999395201|R".toList) 2000000000 = .yes := by decide
+example : checkPinTrustRaw decimalInt 604800 (some ['R']) (some "1999395200|R".toList) 2000000000 = .no := by decide
+example : checkPinTrustRaw decimalInt 604800 (some ['R']) (some "1999395201|W".toList) 2000000000 = .bad := by decide
+
+/-- the raw check is the abstract check of the dispatch model on the cookie's class; with the PIN
+switched off it is `True` whatever the cookie is -/
+theorem raw_check_is_abstract_check (intOf : IntOf) (pinTime : Int) (hp : List Char)
+    (cookie : Option (List Char)) (now : Int) :
+    checkPinTrustRaw intOf pinTime (some hp) cookie now
+      = checkPinTrust true (classifyCookie intOf pinTime hp cookie now) ∧
+    checkPinTrustRaw intOf pinTime none cookie now = .yes :=
+  ⟨DbgW.checkPinTrustRaw_classify intOf pinTime hp cookie now, rfl⟩
+
+/-! ### the widened live table: secret spellings × cookie edge cases × frame-id spellings × Hosts -/
+
+open Wz.DbgW Wz.Gen.DebuggerWide in
+/-- The widened table is the complete product of its dimensions (7 commands × 6 secret spellings ×
+6 Hosts × 8 cookies × 4 frame ids × evalex × pin), `PIN_TIME` is one week, the rig's cookie classes
+are what the names say under the rig's clock (valid, *just* valid, *just* expired, wrong hash, three
+malformed spellings, absent), and no point produced an unclassifiable answer or a missing resource. -/
+theorem wide_table_complete :
+    Gen.DebuggerWide.rows.length = Gen.DebuggerWide.nRows ∧
+    Gen.DebuggerWide.nRows = Gen.DebuggerWide.nCmd * Gen.DebuggerWide.nSec * Gen.DebuggerWide.nHost ∧
+    Gen.DebuggerWide.rowLen = Gen.DebuggerWide.nCookie * Gen.DebuggerWide.nFrame * 2 * 2 ∧
+    pinTime = 60 * 60 * 24 * 7 ∧
+    (List.range 8).map cookieOf = cookieLit ∧
+    Gen.DebuggerWide.hostTexts.map (fun h => hostIsTrusted asciiIdna h Gen.DebuggerWide.defaultTrusted) = hostLit ∧
+    Gen.DebuggerWide.hostClasses.length = Gen.DebuggerWide.nHost ∧
+    Gen.DebuggerWide.hostTexts.length = Gen.DebuggerWide.nHost ∧
+    DbgW.checkTable (fun _ _ o => o != 15 && o != 2) = true := by
+  decide +kernel
+
+open Wz.DbgW in
+/-- The model's `dispatch` — with the *model's* `hostIsTrusted` for the Host and the *raw* cookie check
+under the rig's clock for the cookie — predicts the observed outcome of the real
+`DebuggedApplication.__call__` at every point of the widened product. -/
+theorem wide_table_matches_model :
+    ∀ idx j, idx < Gen.DebuggerWide.nRows → j < Gen.DebuggerWide.rowLen →
+      DbgW.outcomeAt idx j = DbgW.modelOutcome (DbgW.pointAt idx j) := by
+  have hA : DbgW.checkRows (fun idx j o => o == DbgW.modelOutcome (DbgW.pointAt idx j)) Gen.DebuggerWide.nRows
+      (Gen.DebuggerWide.rows.take 84) Gen.DebuggerWide.nRows = true := by decide +kernel
+  have hB : DbgW.checkRows (fun idx j o => o == DbgW.modelOutcome (DbgW.pointAt idx j)) Gen.DebuggerWide.nRows
+      ((Gen.DebuggerWide.rows.drop 84).take (168 - 84)) (Gen.DebuggerWide.nRows - 84) = true := by decide +kernel
+  have hC : DbgW.checkRows (fun idx j o => o == DbgW.modelOutcome (DbgW.pointAt idx j)) Gen.DebuggerWide.nRows
+      (Gen.DebuggerWide.rows.drop 168) (Gen.DebuggerWide.nRows - 168) = true := by decide +kernel
+  have key := DbgW.checkTable_thirds _ 84 168 (by decide) (by decide) wide_table_complete.1 hA hB hC
+  intro idx j hi hj
+  simpa using DbgW.checkTable_get key wide_table_complete.1 idx j hi hj
+
+def wideGatesOk (idx j o : Nat) : Bool :=
+  let p := DbgW.pointAt idx j
+  -- eval: its own command, evalex, acceptable Host, the right secret spelled exactly, the registered
+  -- frame id, pin off or a cookie inside PIN_TIME
+  (o != 4 || (p.cmd == 0 && p.evalex && DbgW.hostClass p != 1 && p.sec == 0 && p.frame == 0 &&
+    (!p.pinOn || p.cookie == 0 || p.cookie == 1))) &&
+  -- console page
+  (o != 5 || (p.cmd == 1 && p.evalex && DbgW.hostClass p != 1)) &&
+  -- pinauth answers; auth only with pin off, a cookie inside PIN_TIME, or the right PIN
+  (!(8 ≤ o && o ≤ 11) || ((p.cmd == 2 || p.cmd == 3) && p.sec == 0 && DbgW.hostClass p != 1)) &&
+  (!(o == 10 || o == 11) || (!p.pinOn || p.cookie == 0 || p.cookie == 1 || p.cmd == 2)) &&
+  -- printpin
+  (!(o == 6 || o == 7) || (p.cmd == 4 && p.sec == 0 && DbgW.hostClass p != 1)) &&
+  -- a Host that must never be accepted
+  (DbgW.hostClass p != 1 || (o == 0 || o == 1 || o == 3))
+
+/-- **All gates on the widened live table**: wherever the spy frame's `eval` ran the request was an
+eval command with evalex on, an acceptable Host, the secret spelled *exactly* (not case-swapped, not
+truncated, not empty, not absent), the registered frame id (not unknown, missing or non-numeric) and
+— with the PIN on — a cookie whose timestamp is inside PIN_TIME (the one-second-too-old cookie, the
+wrong-hash cookie and all malformed spellings never evaluate); the console page, `pinauth` and
+`printpin` answered only acceptable Hosts (and only the exact secret); `auth` was granted only with pin
+off, an unexpired cookie or the right PIN; a never-acceptable Host got the application, a static
+resource or 400. -/
+theorem wide_gates_table :
+    ∀ idx j, idx < Gen.DebuggerWide.nRows → j < Gen.DebuggerWide.rowLen →
+      wideGatesOk idx j (DbgW.outcomeAt idx j) = true := by
+  have hA : DbgW.checkRows wideGatesOk Gen.DebuggerWide.nRows (Gen.DebuggerWide.rows.take 126)
+      Gen.DebuggerWide.nRows = true := by decide +kernel
+  have hB : DbgW.checkRows wideGatesOk Gen.DebuggerWide.nRows ((Gen.DebuggerWide.rows.drop 126).take (126 - 126))
+      (Gen.DebuggerWide.nRows - 126) = true := by decide +kernel
+  have hC : DbgW.checkRows wideGatesOk Gen.DebuggerWide.nRows (Gen.DebuggerWide.rows.drop 126)
+      (Gen.DebuggerWide.nRows - 126) = true := by decide +kernel
+  have key := DbgW.checkTable_thirds _ 126 126 (by decide) (by decide) wide_table_complete.1 hA hB hC
+  intro idx j hi hj
+  exact DbgW.checkTable_get key wide_table_complete.1 idx j hi hj
+
+/-- the eval gate read off `wide_gates_table` -/
+theorem wide_eval_gate (idx j : Nat) (hi : idx < Gen.DebuggerWide.nRows) (hj : j < Gen.DebuggerWide.rowLen)
+    (ho : DbgW.outcomeAt idx j = 4) :
+    (DbgW.pointAt idx j).cmd = 0 ∧ (DbgW.pointAt idx j).evalex = true ∧ DbgW.hostClass (DbgW.pointAt idx j) ≠ 1 ∧
+    (DbgW.pointAt idx j).sec = 0 ∧ (DbgW.pointAt idx j).frame = 0 ∧
+    ((DbgW.pointAt idx j).pinOn = false ∨ (DbgW.pointAt idx j).cookie = 0 ∨ (DbgW.pointAt idx j).cookie = 1) := by
+  have := wide_gates_table idx j hi hj
+  simp only [wideGatesOk, ho, Bool.and_eq_true] at this
+  obtain ⟨⟨⟨⟨⟨h1, _⟩, _⟩, _⟩, _⟩, _⟩ := this
+  simpa [and_assoc, or_assoc] using h1
+
+/-- not vacuous: eval, right secret, `localhost:5000`, the *just valid* cookie, known frame, evalex on,
+pin on — evaluated; the same with the one-second-older cookie did not -/
+example : DbgW.outcomeAt 0 16 = 4 ∧ DbgW.outcomeAt 0 32 ≠ 4 := by decide +kernel
+
+open Wz.DbgW Wz.Gen.DebuggerWide in
+/-- **`trusted_hosts` customised, request method**: for every command × Host (`localhost`,
+`[::1]:5000`, `sub.example.com`, `evil.com`, absent, `Example.COM:80`) × `trusted_hosts` (default,
+`["[::1]", ".example.com"]`, `[]`) × method (GET, POST) × pin on/off — everything else passing the
+gates — the real application did what the model's dispatch says with the model's `hostIsTrusted` on
+that Host and that list: the gate follows the configured list (an IPv6 literal entry admits exactly
+that literal, the empty list admits nobody), and the request method does not matter. -/
+theorem trust_table_matches_model :
+    trustRows.length = 7 * 6 * 3 * 2 * 2 ∧ ∀ r ∈ trustRows, r.2.2.2.2.2 = trustModel r := by
+  decide +kernel
+
+/-! ### structure of the debugger's source that the model transcribes (AST facts, every run) -/
+
+open Wz.Gen.DebuggerWide in
+/-- **The model's gates are the code's**: `PIN_TIME` is written `60 * 60 * 24 * 7`; `hash_pin` is the
+first 12 hex digits of a salted SHA-1; `check_pin_trust` splits the cookie at the first `|`, reads the
+timestamp with `int`, compares the hash with `hash_pin(self.pin)` and finally tests
+`time.time() - PIN_TIME < ts` (`checkPinTrustRaw`); `pin_auth` compares the entered PIN modulo dashes and
+surrounding white space, issues `f"{int(time.time())}|{hash_pin(pin)}"` as an HttpOnly, SameSite=Strict
+cookie; `_fail_pin_auth` sleeps `5.0 if count > 5 else 0.5` (`failDelayTenths`); `__call__`'s chain is
+`__debugger__ == "yes"` → resource / pinauth ∧ secret / printpin ∧ secret / the eval conjunction
+(evalex ∧ cmd ∧ frame ∧ secret ∧ check_pin_trust), else the console test; every comparison with the
+secret is an exact `==`; `execute_command`, `display_console`, `pin_auth` and `log_pin_request` all start
+with the Host gate, which is `host_is_trusted(environ.get("HTTP_HOST"), self.trusted_hosts)`. -/
+theorem debugger_source_structure :
+    pinTimeExpr = "60 * 60 * 24 * 7" ∧
+    hashPinExpr = "hashlib.sha1(f'{pin} added salt'.encode('utf-8', 'replace')).hexdigest()[:12]" ∧
+    cookieSplit = "ts_str, pin_hash = val.split('|', 1)" ∧ tsParse = "ts = int(ts_str)" ∧
+    hashTest = "pin_hash != hash_pin(self.pin)" ∧ expiryTest = "time.time() - PIN_TIME < ts" ∧
+    pinCompare = "entered_pin.strip().replace('-', '') == pin.replace('-', '')" ∧
+    Gen.DebuggerWide.issuedCookie = "f'{int(time.time())}|{hash_pin(pin)}'" ∧
+    cookieFlags = ["httponly=True", "samesite='Strict'", "secure=request.is_secure"] ∧
+    delayExpr = "5.0 if count > 5 else 0.5" ∧
+    callTests = ["request.args.get('__debugger__') == 'yes'", "cmd == 'resource' and arg",
+      "self.evalex and self.console_path is not None and (request.path == self.console_path)",
+      "cmd == 'pinauth' and secret == self.secret", "cmd == 'printpin' and secret == self.secret",
+      "self.evalex and cmd is not None and (frame is not None) and (self.secret == secret) and self.check_pin_trust(environ)"] ∧
+    secretTests = ["secret == self.secret", "secret == self.secret", "self.secret == secret"] ∧
+    hostGateFirst = ["execute_command", "display_console", "pin_auth", "log_pin_request"] ∧
+    hostTrustExpr = "host_is_trusted(environ.get('HTTP_HOST'), self.trusted_hosts)" := by
+  decide +kernel
+
+/-- the penalty delay never shrinks as failures accumulate -/
+theorem fail_delay_monotone (a b : UInt8) (h : a ≤ b) : failDelayTenths a ≤ failDelayTenths b := by
+  unfold failDelayTenths
+  by_cases ha : a > 5
+  · have hb : b > 5 := Nat.lt_of_lt_of_le ha h
+    simp [ha, hb]
+  · simp only [ha, if_false]
+    split <;> omega
 
 end Wz.Props.C20
